@@ -89,7 +89,7 @@ def run(pid: str, tier: str) -> dict:
         per[r["prim"]] = per.get(r["prim"], 0) + 1
     cov = {"states": max(1, states), "transitions": max(1, len(recs)), "traces_validated_against_impl": len(recs),
            "samples": [{k: r[k] for k in ("id", "prim", "shape", "args")} for r in (recs[:1] + recs[len(recs) // 2:len(recs) // 2 + 1] + recs[-1:])],
-           "exhaustive": True, "grid_points_per_primitive": per, "engines": ["numpy", "casadi(DM through SX engine)"],
+           "exhaustive": False, "grid_enumerated_completely": True, "grid_points_per_primitive": per, "engines": ["numpy", "casadi(DM through SX engine)"],
            "explanation": "full product grids (boundaries, ties, both sides of every min/max/if) per primitive, enumerated by TLC; each point "
                           "called on both engines as 0-d / length-1 / length-3 arguments; results validated by TLC against Laws.tla and against each other"}
     return {"violations": viol, "coverage": cov, "level": "model_checking",
